@@ -165,11 +165,86 @@ def run(res, tier, seed):
         if e and first is None:
             first = {"what": e, "source": t, "expectation": [kind, sorted(what) if isinstance(what, set) else what],
                      "replay_cmd": "echo '%s' | %s" % (pipe_req("run", [("m.s", t)]), RVH_DEBUG)}
+    # ---- the same programs cut into include trees: a label is one name in the whole program, whichever file
+    # defines or uses it (seed C16-r compared a definition only with the definitions of its own file)
+    from props.c15 import split_tree
+    trees = []
+    for t, (kind, what) in cases:
+        if kind not in ("undefined", "duplicate", "ok") or ".include" in t or '"' in t:
+            continue
+        lines_ = t.rstrip("\n").split("\n")
+        for _ in range(3):
+            files, mapping = split_tree(rng, lines_)
+            if len(files) < 2:
+                continue
+            if kind == "duplicate":
+                # keep the trees that put two definitions of the label into different files
+                owners = {f for (f, ln), orig in mapping.items() if re.match(r"\s*" + re.escape(what) + r"\s*:", lines_[orig])}
+                if len(owners) < 2:
+                    continue
+            break
+        else:
+            continue
+        fl = [("base.s", "\n".join(files["base.s"]) + "\n")] + \
+             [(k_, "\n".join(v_) + "\n") for k_, v_ in files.items() if k_ != "base.s"]
+        from props.c15 import import_order
+        order_ = import_order(files)
+        trees.append((t, kind, what, fl, {k_: "\n".join(files[k_]) + "\n" for k_ in files}, order_))
+        if len(trees) >= (60 if tier == "quick" else 1500):
+            break
+    timpl, _, tbad = correspondence("parse,cfg,run", [x[3] for x in trees])
+    dist["include_trees"] = len(trees)
+    dist["include_trees_duplicate_across_files"] = sum(1 for x in trees if x[1] == "duplicate")
+    for (t, kind, what, fl, ftext, order_), blk in zip(trees, timpl):
+        if any(l.startswith("PERR") for l in blk):
+            continue
+        runl = [l for l in blk if l.startswith("RUN ")]
+        titles = [unhx(field(l, "title")) for l in runl]
+        e = None
+        crash = [l for l in blk if l.startswith(("PANIC", "HANG", "CRASH"))]
+        if crash:
+            e = "the analysis of an include tree crashes: " + crash[0][:80]
+
+        def text_at(l):
+            at = parse_loc(field(l, "at"))
+            try:
+                ls_ = ftext[order_[int(at["file"])]].split("\n")
+                return ls_[at["sl"]][at["sc"]:at["ec"] + 1]
+            except (ValueError, IndexError, TypeError):
+                return None
+        if kind == "undefined":
+            hits = [l for l in runl if unhx(field(l, "title")).startswith("Labels not defined")]
+            if not hits:
+                e = e or f"undefined labels {sorted(what)} (program cut into files) but no 'Labels not defined' error: {titles[:4]}"
+            else:
+                named = set(x.strip() for x in unhx(field(hits[0], "title")).split(":", 1)[1].split(","))
+                if named != set(what):
+                    e = e or f"'Labels not defined' names {sorted(named)}, undefined are {sorted(what)} (program cut into files)"
+                if text_at(hits[0]) not in what:
+                    e = e or f"'Labels not defined' is located on {text_at(hits[0])!r}, not on an occurrence of an undefined label (program cut into files)"
+        elif kind == "duplicate":
+            hits = [l for l in runl if unhx(field(l, "title")).startswith("Duplicate label")]
+            if not hits:
+                e = e or f"label {what!r} is defined in two files of one program but there is no 'Duplicate label' error: {titles[:4]}"
+            else:
+                if unhx(field(hits[0], "title")).split(":", 1)[1].strip() != what:
+                    e = e or f"'Duplicate label' names {unhx(field(hits[0], 'title'))!r}, duplicate is {what!r}"
+                if (text_at(hits[0]) or "").rstrip(":") != what:
+                    e = e or f"'Duplicate label' is located on {text_at(hits[0])!r}, not on an occurrence of {what!r} (program cut into files)"
+        else:
+            if any(l.startswith("CFGERR") for l in blk):
+                e = e or "analysis stopped for a program without undefined or duplicate labels (program cut into files)"
+        if e and first is None:
+            first = {"what": e, "files": fl, "expectation": [kind, sorted(what) if isinstance(what, set) else what],
+                     "replay_cmd": "echo '%s' | %s" % (pipe_req("run", fl), RVH_DEBUG)}
     corr = None
     if bad:
         i, fam, d = bad[0]
         corr = {"stage": fam, "source": inputs[i][0][1], "impl_vs_model": d}
-    res.cov["evaluations"] = len(cases)
+    elif tbad:
+        i, fam, d = tbad[0]
+        corr = {"stage": fam + " (include tree)", "files": trees[i][3], "impl_vs_model": d}
+    res.cov["evaluations"] = len(cases) + len(trees)
     res.cov["distinct_nontrivial"] = len(set(t for t, _ in cases))
     res.cov["rule"] = ("generated programs with label-level mutations: uses renamed to undefined names (jumps, "
                        "branches, calls, la), duplicated definitions (adjacent, far, in .data, at the end); the "
